@@ -441,6 +441,29 @@ SHEET_ARRAY_SPECS = [
 ]
 
 
+def intersection_first_access(ctx):
+    """directed: a formula with the intersection operator whose result is one formula cell that was not evaluated
+    yet, reached first through a range that contains the formula (the ranges of one build are evaluated eagerly, the
+    order they are taken in must not matter)"""
+    spec = {'sheets': [['Sheet1', {'A1': 1, 'B1': '=A1*2', 'C1': 3, 'B2': 5, 'B3': 6, 'F1': '=A1:C1 B1:B3',
+                                   'F2': '=F1+1', 'G1': '=B1*10'}]], 'names': {}, 'arrays': [], 'calc': None}
+    meta = {'inputs': [], 'formulas': {f'Sheet1!{c}': {'form': 'intersect', 'deps': []} for c in ('B1', 'F1', 'F2', 'G1')},
+            'order': []}
+    book = Book(ctx, spec, meta)
+    for first in ('Sheet1!F1:F2', 'Sheet1!F:F', 'Sheet1!A1:G3', 'Sheet1!1:1', 'Sheet1!F1', 'Sheet1!G1'):
+        comp = book.factory()
+        wb.outcome(comp.evaluate, first)
+        ctx.count('directed:intersection_first_access')
+        for text, c1, r1, c2, r2 in (('Sheet1!A1:C1', 1, 1, 3, 1), ('Sheet1!B1:B3', 2, 1, 2, 3),
+                                     ('Sheet1!A1:G3', 1, 1, 7, 3), ('Sheet1!F1:F2', 6, 1, 6, 2)):
+            book.compare_range(comp, 'Sheet1', text, c1, r1, c2, r2, 'rect')
+        for a in book.addresses:
+            got = wb.outcome(comp.evaluate, a)
+            if not wb.same_outcome(got, book.ref[a]):
+                book.bad('order-dependent-value', f'after evaluate({first!r}) first, evaluate({a!r}) = {got!r}, raster '
+                         f'order gives {book.ref[a]!r}', {'kind': 'intersection-first', 'order': [first, a]})
+
+
 def context_books(ctx, rng):
     for spec in CONTEXT_SPECS + SHEET_ARRAY_SPECS + COMPUTED_REFERENCE_SPECS:
         members = wb.array_members(spec)
@@ -547,6 +570,7 @@ def run(ctx):
         clip_edge_cases(ctx)
         array_edge_cases(ctx)
         stale_array_case(ctx)
+        intersection_first_access(ctx)
     if ctx.shard == 1 % ctx.nshards:
         context_books(ctx, rng)
     # the workbooks shipped with the repository (date, text, lookup, ... functions; CSE arrays; several sheets)
@@ -606,6 +630,10 @@ def replay(ctx, case):
         return
     if case.get('kind') == 'real-book':
         realbooks.c05_case(ctx, case['book'], case['case_seed'])
+        return
+    if case.get('kind') == 'intersection-first' or (case.get('path') in ('Sheet1!A1:C1', 'Sheet1!B1:B3') and
+                                                    'F1' in str(case.get('spec'))):
+        intersection_first_access(ctx)
         return
     if case.get('config') == 'xlsx-stale' and case.get('stored') is not None:
         book = Book(ctx, case['spec'], case['meta'],
